@@ -32,10 +32,11 @@ import (
 )
 
 type c11Op struct {
-	Op string `json:"op"`          // sub | bcast | read | readall | cancel | close | nop
-	P  bool   `json:"p,omitempty"` // sub: prompt consumer (true) or consumer on command (false)
-	I  int    `json:"i,omitempty"` // read/readall/cancel: subscriber index (order of sub ops)
-	N  int    `json:"n,omitempty"` // input sugar: repeat this op N times (bcast, read)
+	Op string `json:"op"`             // sub | bcast | read | readall | cancel | close | nop
+	P  bool   `json:"p,omitempty"`    // sub: prompt consumer (true) or consumer on command (false)
+	D  bool   `json:"dead,omitempty"` // sub: the context passed to Subscribe has already ended
+	I  int    `json:"i,omitempty"`    // read/readall/cancel: subscriber index (order of sub ops)
+	N  int    `json:"n,omitempty"`    // input sugar: repeat this op N times (bcast, read)
 }
 
 type c11Input struct {
@@ -54,6 +55,11 @@ type c11Input struct {
 	Bcasts int    `json:"bcasts,omitempty"` // Broadcast calls (at most 10: nothing may block)
 	Mode   string `json:"mode,omitempty"`   // seq: one goroutine calls Subscribe.., Broadcast.., Close back to back; par: every call on its own goroutine, released together
 	Reps   int    `json:"reps,omitempty"`   // repetitions (stops at the first late delivery)
+	Closes int    `json:"closes,omitempty"` // rush: number of Close calls (default 1); conc: Close calls issued meanwhile from their own goroutines (default 0)
+	// dup
+	Copies   int  `json:"copies,omitempty"`   // the same channel is subscribed this many times
+	Leave    int  `json:"leave,omitempty"`    // 0: all stay; m+1: the context of the last copy ends after m Broadcasts
+	Variadic bool `json:"variadic,omitempty"` // one Subscribe(ctx, ch, ch, ...) call instead of several calls
 }
 
 func c11Expand(ops []c11Op) []c11Op {
@@ -72,7 +78,7 @@ func c11Expand(ops []c11Op) []c11Op {
 }
 
 func c11Validate(ops []c11Op) error {
-	nsub, closed := 0, false
+	nsub, ncl := 0, 0
 	for s, op := range ops {
 		switch op.Op {
 		case "sub":
@@ -83,10 +89,10 @@ func c11Validate(ops []c11Op) error {
 				return fmt.Errorf("step %d: subscriber index out of range", s)
 			}
 		case "close":
-			if closed {
-				return fmt.Errorf("step %d: second close", s)
+			ncl++
+			if ncl > 2 {
+				return fmt.Errorf("step %d: third close", s)
 			}
-			closed = true
 		default:
 			return fmt.Errorf("step %d: unknown op %q", s, op.Op)
 		}
@@ -100,6 +106,9 @@ func c11Validate(ops []c11Op) error {
 func c11CoqOp(op c11Op) string {
 	switch op.Op {
 	case "sub":
+		if op.D {
+			return "OSubDead " + hx.CoqBool(op.P)
+		}
 		return "OSub " + hx.CoqBool(op.P)
 	case "bcast":
 		return "OBcast"
@@ -215,7 +224,7 @@ func c11ScriptFacts(ops []c11Op) (facts map[string]any, tags []string, class str
 		reads             int
 	}
 	var subs []*sub
-	nb, closeAt := 0, -1
+	nb, closeAt, ncloses := 0, -1, 0
 	maxOutAtClose := 0
 	var cls strings.Builder
 	prev, run := "", 0
@@ -242,8 +251,11 @@ func c11ScriptFacts(ops []c11Op) (facts map[string]any, tags []string, class str
 		tok := op.Op
 		switch op.Op {
 		case "sub":
-			subs = append(subs, &sub{prompt: op.P, at: s})
+			subs = append(subs, &sub{prompt: op.P, at: s, cancelled: op.D})
 			tok = "sub" + map[bool]string{true: "P", false: "C"}[op.P]
+			if op.D {
+				tok += "dead"
+			}
 		case "bcast":
 			nb++
 		case "read":
@@ -260,6 +272,10 @@ func c11ScriptFacts(ops []c11Op) (facts map[string]any, tags []string, class str
 			sb.cancelled = true
 			tok = fmt.Sprintf("cancel%d", op.I)
 		case "close":
+			ncloses++
+			if closeAt >= 0 {
+				break
+			}
 			closeAt = s
 			for _, sb := range subs {
 				if !sb.prompt && !sb.cancelled {
@@ -293,6 +309,9 @@ func c11ScriptFacts(ops []c11Op) (facts map[string]any, tags []string, class str
 	}
 	if closeAt >= 0 {
 		tags = append(tags, "in/has Close")
+	}
+	if ncloses > 1 {
+		tags = append(tags, "in/two Close calls")
 	}
 	return facts, tags, strings.TrimSpace(cls.String()), nb == 0 || len(subs) == 0
 }
@@ -350,13 +369,13 @@ func c11RunScript(ctx *core.Ctx, in c11Input, kind string) error {
 }
 
 func c11RunConc(ctx *core.Ctx, in c11Input, kind string) error {
-	if in.Stay < 1 || in.Stay > 64 || in.G < 1 || in.G > 64 || in.K < 1 || in.K > 1000 {
+	if in.Stay < 1 || in.Stay > 64 || in.G < 1 || in.G > 64 || in.K < 1 || in.K > 1000 || in.Closes < 0 || in.Closes > 8 {
 		return fmt.Errorf("conc: parameters out of range")
 	}
 	r := c11ExecConc(in)
 	facts := map[string]any{"stay": in.Stay, "goroutines": in.G, "per_goroutine": in.K, "leaver": in.Leaver, "late": in.Late}
 	c := hx.Case{Kind: kind, Input: hx.MustJSON(in), Facts: facts,
-		Class: fmt.Sprintf("conc stay=%d g=%d k=%d leaver=%v late=%v seed=%d", in.Stay, in.G, in.K, in.Leaver, in.Late, in.Seed)}
+		Class: fmt.Sprintf("conc stay=%d g=%d k=%d leaver=%v late=%v closes=%d seed=%d", in.Stay, in.G, in.K, in.Leaver, in.Late, in.Closes, in.Seed)}
 	ctx.Sink.Count("kind=conc")
 	if r.hang {
 		c.Direct, c.Note = 2, "conc: the goroutines did not finish within 10 s (a call hangs)"
@@ -390,6 +409,56 @@ func c11RunConc(ctx *core.Ctx, in c11Input, kind string) error {
 	w := r.stay[0]
 	c.Observed = map[string]any{"overlapping_call_pairs": overlap, "leaver_received": len(r.leaver), "late_received": len(r.late)}
 	c.Coq = fmt.Sprintf("CConc %d %s %s %s %s %s", in.Stay, hx.CoqList(calls), hx.CoqList(stay), leaver, late, hx.CoqInts(w))
+	if in.Closes > 0 {
+		// Close was called meanwhile: every subscriber alike, candidate order by topological sort
+		seqs := append([][]int{}, r.stay...)
+		if in.Leaver {
+			seqs = append(seqs, r.leaver)
+		}
+		if in.Late {
+			seqs = append(seqs, r.late)
+		}
+		var nodes []int
+		edges := map[[2]int]bool{}
+		for _, cl := range r.calls {
+			nodes = append(nodes, cl.v)
+		}
+		got := map[int]bool{}
+		for _, sq := range seqs {
+			for i, v := range sq {
+				got[v] = true
+				if i > 0 {
+					edges[[2]int{sq[i-1], v}] = true
+				}
+			}
+		}
+		var recv []int
+		for _, n := range nodes {
+			if got[n] {
+				recv = append(recv, n)
+			}
+		}
+		for _, a := range r.calls {
+			for _, b := range r.calls {
+				if a.end < b.start {
+					edges[[2]int{a.v, b.v}] = true
+				}
+			}
+		}
+		sqs := make([]string, len(seqs))
+		for i, sq := range seqs {
+			sqs[i] = hx.CoqInts(sq)
+		}
+		cls := make([]string, len(r.closes))
+		for i, cl := range r.closes {
+			cls[i] = fmt.Sprintf("(%d, %d)", cl[0], cl[1])
+		}
+		c.Coq = fmt.Sprintf("CConcClose %s %s %s %s", hx.CoqList(calls), hx.CoqList(sqs), hx.CoqList(cls), hx.CoqInts(c11Topo(recv, edges)))
+		ctx.Sink.Count("in/conc run with Close calls meanwhile")
+		if len(recv) > 0 && len(recv) < len(nodes) {
+			ctx.Sink.Count("obs/Close cut the run in the middle")
+		}
+	}
 	if overlap > 0 {
 		ctx.Sink.Count("obs/conc run with overlapping Broadcast calls")
 	}
@@ -405,13 +474,13 @@ func c11RunConc(ctx *core.Ctx, in c11Input, kind string) error {
 
 func c11RunRush(ctx *core.Ctx, in c11Input, kind string) error {
 	if in.Subs < 1 || in.Subs > 16 || in.Bcasts < 0 || in.Bcasts > 10 || in.Reps < 1 || in.Reps > 100000 ||
-		(in.Mode != "seq" && in.Mode != "par") {
+		(in.Mode != "seq" && in.Mode != "par") || in.Closes < 0 || in.Closes > 8 {
 		return fmt.Errorf("rush: parameters out of range")
 	}
 	r := c11ExecRush(in)
 	c := hx.Case{Kind: kind, Input: hx.MustJSON(in),
 		Facts: map[string]any{"subs": in.Subs, "bcasts": in.Bcasts, "mode": in.Mode},
-		Class: fmt.Sprintf("rush subs=%d bcasts=%d mode=%s", in.Subs, in.Bcasts, in.Mode), Trivial: in.Bcasts == 0}
+		Class: fmt.Sprintf("rush subs=%d bcasts=%d mode=%s closes=%d", in.Subs, in.Bcasts, in.Mode, in.Closes), Trivial: in.Bcasts == 0}
 	ctx.Sink.Count("kind=rush")
 	ctx.Sink.Count("in/rush mode=" + in.Mode)
 	if r.hang != "" {
@@ -432,6 +501,29 @@ func c11RunRush(ctx *core.Ctx, in c11Input, kind string) error {
 	return nil
 }
 
+func c11RunDup(ctx *core.Ctx, in c11Input, kind string) error {
+	if in.Copies < 2 || in.Copies > 6 || in.Bcasts < 1 || in.Bcasts > 60 || in.Leave < 0 || in.Leave > in.Bcasts+1 ||
+		(in.Variadic && in.Leave > 0) {
+		return fmt.Errorf("dup: parameters out of range")
+	}
+	shared, other, err := c11ExecDup(in)
+	c := hx.Case{Kind: kind, Input: hx.MustJSON(in),
+		Facts: map[string]any{"copies": in.Copies, "bcasts": in.Bcasts, "leave": in.Leave, "variadic": in.Variadic},
+		Class: fmt.Sprintf("dup copies=%d bcasts=%d leave=%d variadic=%v", in.Copies, in.Bcasts, in.Leave, in.Variadic)}
+	leave := "None"
+	if in.Leave > 0 {
+		leave = fmt.Sprintf("(Some %d)", in.Leave-1)
+	}
+	c.Observed = map[string]any{"shared_received": len(shared), "other_received": len(other)}
+	c.Coq = fmt.Sprintf("CDup %d %d %s %s %s", in.Copies, in.Bcasts, leave, hx.CoqInts(shared), hx.CoqInts(other))
+	if err != nil {
+		c.Direct, c.Note = 1, "harness: "+err.Error()
+	}
+	ctx.Sink.Count("kind=dup")
+	ctx.Sink.Add(c)
+	return nil
+}
+
 func intOf(v any) int {
 	if n, ok := v.(int); ok {
 		return n
@@ -448,6 +540,8 @@ func c11Run(ctx *core.Ctx, in c11Input, kind string) error {
 		return c11RunConc(ctx, in, kind)
 	case "rush":
 		return c11RunRush(ctx, in, kind)
+	case "dup":
+		return c11RunDup(ctx, in, kind)
 	}
 	return fmt.Errorf("unknown kind %q", in.Kind)
 }
